@@ -732,7 +732,7 @@ func main() {
 	}
 	hxlib.Main(&hxlib.Harness{
 		Prop:     "C17",
-		Rule:     "a case is one run of one real writer (renameio.WriteFile/Symlink, utils.CreateAtomic/CopyFileAtomic/ReplaceFileAtomic, fstree.Put, updater download via DownloadUpdates against an in-process HTTP server, updater.UnpackResources, File.Unpack) in a child process under a ptrace system-call stepper: once to completion and once per crash point k (killed immediately before its k-th file-system-mutating system call; all k when there are few, first/last/random k otherwise), over old states absent / present / present read-only / symlink / directory, contents empty / small / multi-MiB, TMPDIR on the same file system / on another file system / unusable / explicit temp dir, and failing operations (reader error, truncated HTTP body, 404, corrupt gzip / zip). Lines: initial snapshot, translated system calls, final snapshot; per call the errno and the destination as a reader sees it are compared between the kernel and the Lean file-system model, the final snapshot likewise, and the Lean safePublish checker runs on the actual call sequence. Non-trivial: the run issued at least one mutating call; distinct by the hash of the lines.",
+		Rule:     "a case is one run of one real writer (renameio.WriteFile/Symlink, utils.CreateAtomic/CopyFileAtomic/ReplaceFileAtomic, fstree.Put, updater download via DownloadUpdates against an in-process HTTP server incl. signed and missing-signature downloads, updater.UnpackResources, File.Unpack) in a child process under a ptrace system-call stepper: once to completion and once per crash point k (killed immediately before its k-th file-system-mutating system call; all k when there are few, first/last/random k otherwise), over old states absent / present / present read-only / symlink / directory, contents empty / tiny / small / chunk-boundary sizes / medium / multi-MiB (random or with magic prefixes), TMPDIR on the same file system / on another file system / unusable / explicit temp dir (same and other file system), failing operations (reader error, truncated HTTP body, 404, corrupt gzip / zip, missing source) and history (the same operation killed earlier on the same sandbox). Lines: initial snapshot, translated system calls, final snapshot; per call the errno and the destination as a reader sees it are compared between the kernel and the Lean file-system model, the final snapshot likewise, the Lean safePublish / onlyTemp checkers run on the actual call sequence, and the run must be a path of the Lean program of the writer with the same return value. Non-trivial: the run issued at least one mutating call; distinct by the hash of the lines.",
 		Generate: generate,
 		NewExec:  func(*hxlib.Run) hxlib.Exec { return &c17exec{} },
 		Monitor:  monitor,
